@@ -1,14 +1,15 @@
-(** C13 trace monitor: datagram sizes against the path-MTU estimate probed before the call.
+(** C13 trace monitor: datagram sizes against the path-MTU estimate probed before the call;
+    path-validation datagrams padded to 1200.
     Projection expected: tags 8 (probe) and 1 (transmit). *)
 From Coq Require Import ZArith List Bool.
 From QV Require Import Lib.Corr Sys.Trace.
 Import ListNotations.
 Open Scope Z_scope.
 
-Record cst := { lastp : list Z; probes_sent : list Z }.
+Record cst := { lastp : list Z; probes_sent : list Z; lasttx : option (Z * Z) (* size, segment size of the transmit since the last probe *) }.
 Record st := { cs : list (key * cst); gso : Z; upper : Z }.
 Definition getc (s : st) (k : key) : cst :=
-  match aget (cs s) k with Some c => c | None => {| lastp := []; probes_sent := [] |} end.
+  match aget (cs s) k with Some c => c | None => {| lastp := []; probes_sent := []; lasttx := None |} end.
 Definition setc (s : st) (k : key) (c : cst) : st := {| cs := aset (cs s) k c; gso := gso s; upper := upper s |}.
 
 Definition mem (x : Z) (l : list Z) : bool := existsb (Z.eqb x) l.
@@ -19,12 +20,21 @@ Definition step (s : st) (r : list Z) : option st :=
   if tag r =? 8 then
     let mtu := pf r 7 in
     (* floor, and the estimate rises only to a size that was probed *)
-    if (1200 <=? mtu) &&
+    (* a transmit that carried a PATH_CHALLENGE or PATH_RESPONSE (frame_tx counters, fields 53 and
+       54, grew across it) consists of datagrams padded to at least 1200 bytes *)
+    let path_padded :=
+      match lastp c, lasttx c with
+      | (_ :: _) as p, Some (size, seg) =>
+          negb (fld p 53 + fld p 54 <? fld r 53 + fld r 54) ||
+          (if seg =? 0 then 1200 <=? size else 1200 <=? seg)
+      | _, _ => true
+      end in
+    if (1200 <=? mtu) && path_padded &&
        match lastp c with
        | [] => true
        | p => (mtu <=? pf p 7) || mem mtu (probes_sent c)
        end
-    then Some (setc s k {| lastp := r; probes_sent := probes_sent c |})
+    then Some (setc s k {| lastp := r; probes_sent := probes_sent c; lasttx := None |})
     else None
   else if (tag r =? 1) && (fld r 8 =? 0) then
     match lastp c with
@@ -49,7 +59,8 @@ Definition step (s : st) (r : list Z) : option st :=
           (first <=? 1200) || is_probe in
         if sized && initial_ok && probe_ok then
           Some (setc s k {| lastp := lastp c;
-                            probes_sent := if is_probe then size :: probes_sent c else probes_sent c |})
+                            probes_sent := if is_probe then size :: probes_sent c else probes_sent c;
+                            lasttx := Some (size, seg) |})
         else None
     end
   else Some s.
